@@ -1039,7 +1039,9 @@ class USBDataPacketDeserializer(Elaboratable):
 
 
                 # If this is the end of our packet, validate our CRC and finish.
+                # We always return to IDLE here: a packet with a CRC mismatch is simply discarded.
                 with m.If(~self.utmi.rx_active):
+                    m.next = "IDLE"
 
                     with m.If(last_word_crc == last_word):
                         m.d.usb += [
@@ -1050,8 +1052,6 @@ class USBDataPacketDeserializer(Elaboratable):
 
                         for i in range(self._max_packet_size):
                             m.d.usb += self.packet[i].eq(active_packet[i]),
-
-                        m.next = "IDLE"
 
             # IRRELEVANT -- we've encountered a malformed or non-handshake packet
             with m.State("IRRELEVANT"):
